@@ -381,7 +381,11 @@ def evaluate__round_half_to_even(self: XPathFunction, context: ta.ContextType = 
             return []
         raise self.error('XPTY0004', err)
     except (DecimalException, OverflowError):
-        if isinstance(item, Decimal):
+        if isinstance(precision, int) and precision < 0 and item == item and item != 0 and \
+                -precision > Decimal(item).adjusted() + 1:
+            # every digit is rounded off (the precision is beyond the range of Python's round)
+            return type(item)(0) if not isinstance(item, float) else item * 0
+        elif isinstance(item, Decimal):
             prec = max(item.adjusted() + 2 + max(precision, 0), 1)
             if prec <= 10000:
                 with localcontext() as ctx:
